@@ -336,3 +336,204 @@ Example C19_witness_partition_late_subscriber :
                                            ++ (0, ISubWin 1%nat) :: src_events [9; 4; 7] TDone) in
   wevents 0 tr = [Next 3; Next 4; Done] /\ wevents 1 tr = [Next 9; Next 7; Done].
 Proof. vm_compute. auto. Qed.
+
+(* ======== round 9: run-level theorems for group_by_until and for partition with several subscriptions
+   of one output (Ops/GroupUntilRunFacts.v, Ops/PartitionMultiFacts.v) ======================== *)
+From RxVerif Require Import Ops.GroupUntilRunFacts Ops.PartitionMultiFacts.
+
+(* ---- group_by_until, WHOLE RUNS: every interleaving of the source port (0) and the duration ports (1+j),
+   every key / element / duration callback (raising ones included), every group subscribed when handed.
+   The routing part of the trace (hand-overs, notifications on the groups, the outer's terminal, each with
+   its input position) EQUALS the trace of the functional specification gbu_spec of Ops/GroupUntilRunFacts.v:
+   a map key -> live group id (in creation order), a counter of fresh ids, a flag "over".  An element goes to
+   the live group of its key, or -- iff there is none -- to a new group handed just before; a group whose
+   duration fired is no longer live, and the next element of its key creates a fresh group; a group's
+   completion comes from its duration or from the source's completion; an error of the source / of a live
+   duration / of a callback goes to every live group and to the outer; nothing after the outer's terminal. *)
+Theorem C19_group_by_until_refines_spec : forall A W B (key : A -> res Z) (elem : A -> res W) (dur : nat -> res bool)
+    (ins : list (Z * inp A)), ports_only ins ->
+  routing (fst (run all_imm (x_group_by_until (B:=B) key elem dur) ins)) = gbu_spec key elem dur ins.
+Proof. exact @group_by_until_refines_spec. Qed.
+Print Assumptions C19_group_by_until_refines_spec.
+(* the specification's state is not hidden: after any input sequence its live map is the list of groups handed
+   and not ended in its trace, "over" = the outer got its terminal, the fresh id = number of groups handed *)
+Theorem C19_gbu_spec_state_is_trace_state : forall A W B (key : A -> res Z) (elem : A -> res W) (dur : nat -> res bool)
+    (ins : list (Z * inp A)),
+  let st := gbu_after (W:=W) (B:=B) key elem dur gbu_init ins in
+  let tr := gbu_spec (W:=W) (B:=B) key elem dur ins in
+  gbu_live st = trace_live tr /\ gbu_over st = negb (outer_open tr)
+  /\ (gbu_over st = false -> gbu_next st = length (hands tr)).
+Proof. exact @gbu_state_is_trace_state. Qed.
+Print Assumptions C19_gbu_spec_state_is_trace_state.
+(* hence, on the run's trace alone: what the next input adds is the specification's step from the state that
+   the trace so far shows *)
+Theorem C19_gbu_next_input_run : forall A W B (key : A -> res Z) (elem : A -> res W) (dur : nat -> res bool)
+    (pre : list (Z * inp A)) now i, ports_only (pre ++ [(now, i)]) ->
+  let tr := routing (fst (run all_imm (x_group_by_until (B:=B) key elem dur) pre)) in
+  routing (fst (run all_imm (x_group_by_until (B:=B) key elem dur) (pre ++ [(now, i)])))
+  = tr ++ map (fun o => (S (length pre), o)) (snd (gbu_step key elem dur (trace_state tr) i)).
+Proof. exact @gbu_next_input_run. Qed.
+Print Assumptions C19_gbu_next_input_run.
+(* an element (non-raising callbacks) goes to exactly ONE group: the live group of its key if the trace shows
+   one -- then nothing is handed --, otherwise a NEW group, numbered by the groups handed so far, handed to the
+   outer just before the element *)
+Theorem C19_gbu_element_run : forall A W B (key : A -> res Z) (elem : A -> res W) (dur : nat -> res bool)
+    (pre : list (Z * inp A)) now (x : A) k (y : W), ports_only pre ->
+  let tr := routing (fst (run all_imm (x_group_by_until (B:=B) key elem dur) pre)) in
+  outer_open tr = true -> key x = Ok k -> elem x = Ok y ->
+  (gbu_find k (trace_live tr) = None -> exists h, dur (length (hands tr)) = Ok h) ->
+  routing (fst (run all_imm (x_group_by_until (B:=B) key elem dur) (pre ++ [(now, ISrc 0%nat (Next x))])))
+  = tr ++ map (fun o => (S (length pre), o))
+       (match gbu_find k (trace_live tr) with
+        | Some g => [OWin g (Next y)]
+        | None => [OHand (length (hands tr)) k; OWin (length (hands tr)) (Next y)]
+        end).
+Proof. exact @gbu_element_run. Qed.
+Print Assumptions C19_gbu_element_run.
+(* the live groups always have pairwise different keys (and ids): "THE live group of a key" *)
+Theorem C19_gbu_live_keys_unique : forall A W B (key : A -> res Z) (elem : A -> res W) (dur : nat -> res bool)
+    (pre : list (Z * inp A)), ports_only pre ->
+  let tr := routing (fst (run all_imm (x_group_by_until (B:=B) key elem dur) pre)) in
+  NoDup (map fst (trace_live tr)) /\ NoDup (map snd (trace_live tr)).
+Proof. exact @gbu_live_keys_unique. Qed.
+Print Assumptions C19_gbu_live_keys_unique.
+(* a duration port fires (element or completion): its group, if live, completes and is no longer live --
+   nothing else happens; a port whose group is not live (any more) does nothing *)
+Theorem C19_gbu_expiry_run : forall A W B (key : A -> res Z) (elem : A -> res W) (dur : nat -> res bool)
+    (pre : list (Z * inp A)) now d (e : ev A), ports_only pre ->
+  let tr := routing (fst (run all_imm (x_group_by_until (B:=B) key elem dur) pre)) in
+  let tr' := routing (fst (run all_imm (x_group_by_until (B:=B) key elem dur) (pre ++ [(now, ISrc (S d) e)]))) in
+  outer_open tr = true -> (forall z, e <> Err z) ->
+  tr' = tr ++ (if gbu_is_live d (trace_live tr) && gbu_hot dur d then [(S (length pre), OWin d Done)] else [])
+  /\ (gbu_is_live d (trace_live tr) && gbu_hot dur d = true -> gbu_is_live d (trace_live tr') = false).
+Proof. exact @gbu_expiry_run. Qed.
+Print Assumptions C19_gbu_expiry_run.
+(* the source's terminal (z = None: completion, Some e: error): every live group gets it, in hand-over
+   order, then the outer; whatever comes after adds nothing *)
+Theorem C19_gbu_source_terminal_run : forall A W B (key : A -> res Z) (elem : A -> res W) (dur : nat -> res bool)
+    (pre : list (Z * inp A)) now z post, ports_only (pre ++ (now, ISrc 0%nat (tev z)) :: post) ->
+  let tr := routing (fst (run all_imm (x_group_by_until (B:=B) key elem dur) pre)) in
+  outer_open tr = true ->
+  routing (fst (run all_imm (x_group_by_until (B:=B) key elem dur) (pre ++ (now, ISrc 0%nat (tev z)) :: post)))
+  = tr ++ map (fun o => (S (length pre), o)) (gbu_end (trace_live tr) z).
+Proof. exact @gbu_source_terminal_run. Qed.
+Print Assumptions C19_gbu_source_terminal_run.
+(* any input that ends the specification (source terminal, error of a live duration, raising callback):
+   the trace is the trace so far plus that input's routing -- nothing after *)
+Theorem C19_gbu_ending_run : forall A W B (key : A -> res Z) (elem : A -> res W) (dur : nat -> res bool)
+    (pre : list (Z * inp A)) now i post, ports_only (pre ++ (now, i) :: post) ->
+  gbu_over (fst (gbu_step (W:=W) (B:=B) key elem dur (gbu_after (W:=W) (B:=B) key elem dur gbu_init pre) i)) = true ->
+  routing (fst (run all_imm (x_group_by_until (B:=B) key elem dur) (pre ++ (now, i) :: post)))
+  = routing (fst (run all_imm (x_group_by_until (B:=B) key elem dur) pre))
+    ++ map (fun o => (S (length pre), o)) (snd (gbu_step key elem dur (gbu_after (W:=W) (B:=B) key elem dur gbu_init pre) i)).
+Proof. exact @gbu_ending_run. Qed.
+Print Assumptions C19_gbu_ending_run.
+
+(* ---- raising callbacks, WHOLE RUNS: the error goes to every group handed and not ended (hand-over order),
+   then to the outer; nothing after, whatever the rest of the input is ---- *)
+Theorem C19_gbu_key_raises_run : forall A W B (key : A -> res Z) (elem : A -> res W) (dur : nat -> res bool)
+    (pre : list (Z * inp A)) now (x : A) post e, ports_only (pre ++ (now, ISrc 0%nat (Next x)) :: post) ->
+  let tr := routing (fst (run all_imm (x_group_by_until (B:=B) key elem dur) pre)) in
+  outer_open tr = true -> key x = Raise e ->
+  routing (fst (run all_imm (x_group_by_until (B:=B) key elem dur) (pre ++ (now, ISrc 0%nat (Next x)) :: post)))
+  = tr ++ map (fun o => (S (length pre), o)) (gbu_end (trace_live tr) (Some e)).
+Proof. exact @gbu_key_raises_trace. Qed.
+Theorem C19_gbu_elem_raises_existing_run : forall A W B (key : A -> res Z) (elem : A -> res W) (dur : nat -> res bool)
+    (pre : list (Z * inp A)) now (x : A) post k g e, ports_only (pre ++ (now, ISrc 0%nat (Next x)) :: post) ->
+  let tr := routing (fst (run all_imm (x_group_by_until (B:=B) key elem dur) pre)) in
+  outer_open tr = true -> key x = Ok k -> gbu_find k (trace_live tr) = Some g -> elem x = Raise e ->
+  routing (fst (run all_imm (x_group_by_until (B:=B) key elem dur) (pre ++ (now, ISrc 0%nat (Next x)) :: post)))
+  = tr ++ map (fun o => (S (length pre), o)) (gbu_end (trace_live tr) (Some e)).
+Proof. exact @gbu_elem_raises_existing_trace. Qed.
+(* the element mapper raises on the first element of a new group: the group is handed first, then errored
+   together with all the others *)
+Theorem C19_gbu_elem_raises_new_run : forall A W B (key : A -> res Z) (elem : A -> res W) (dur : nat -> res bool)
+    (pre : list (Z * inp A)) now (x : A) post k hb e, ports_only (pre ++ (now, ISrc 0%nat (Next x)) :: post) ->
+  let tr := routing (fst (run all_imm (x_group_by_until (B:=B) key elem dur) pre)) in
+  let n := length (hands tr) in
+  outer_open tr = true -> key x = Ok k -> gbu_find k (trace_live tr) = None -> dur n = Ok hb -> elem x = Raise e ->
+  routing (fst (run all_imm (x_group_by_until (B:=B) key elem dur) (pre ++ (now, ISrc 0%nat (Next x)) :: post)))
+  = tr ++ map (fun o => (S (length pre), o)) (OHand n k :: gbu_end (trace_live tr ++ [(k, n)]) (Some e)).
+Proof. exact @gbu_elem_raises_new_trace. Qed.
+(* the duration mapper raises: no group is handed; the groups that were live and the outer get the error *)
+Theorem C19_gbu_dur_raises_run : forall A W B (key : A -> res Z) (elem : A -> res W) (dur : nat -> res bool)
+    (pre : list (Z * inp A)) now (x : A) post k e, ports_only (pre ++ (now, ISrc 0%nat (Next x)) :: post) ->
+  let tr := routing (fst (run all_imm (x_group_by_until (B:=B) key elem dur) pre)) in
+  outer_open tr = true -> key x = Ok k -> gbu_find k (trace_live tr) = None -> dur (length (hands tr)) = Raise e ->
+  routing (fst (run all_imm (x_group_by_until (B:=B) key elem dur) (pre ++ (now, ISrc 0%nat (Next x)) :: post)))
+  = tr ++ map (fun o => (S (length pre), o)) (gbu_end (trace_live tr) (Some e)).
+Proof. exact @gbu_dur_raises_trace. Qed.
+Print Assumptions C19_gbu_key_raises_run.
+Print Assumptions C19_gbu_elem_raises_existing_run.
+Print Assumptions C19_gbu_elem_raises_new_run.
+Print Assumptions C19_gbu_dur_raises_run.
+
+(* witnesses: the hypotheses are satisfiable in non-trivial reachable states, and the specification is not
+   the empty trace.  Keys = parity; every duration is a real observable.  1 -> group 0 (key 1); 2 -> group 1
+   (key 0); duration of group 0 fires; 3 -> group 2 (key 1, reborn); 99: the key mapper raises *)
+Example C19_witness_gbu_spec :
+  let key := fun x => if x =? 99 then Raise 7 else Ok (x mod 2) in
+  let ins := [(0, ISrc 0%nat (Next 1)); (1, ISrc 0%nat (Next 2)); (2, ISrc 1%nat (Next 50)); (3, ISrc 0%nat (Next 3));
+              (4, ISrc 1%nat (Next 51)); (5, ISrc 0%nat (Next 99)); (6, ISrc 0%nat (Next 5)); (7, ISrc 2%nat Done)] in
+  ports_only ins
+  /\ gbu_spec (B:=unit) key (fun x => Ok (10 * x)) (fun _ => Ok true) ins
+     = [(1%nat, OHand 0%nat 1); (1%nat, OWin 0%nat (Next 10)); (2%nat, OHand 1%nat 0); (2%nat, OWin 1%nat (Next 20));
+        (3%nat, OWin 0%nat Done); (4%nat, OHand 2%nat 1); (4%nat, OWin 2%nat (Next 30));
+        (6%nat, OWin 1%nat (Err 7)); (6%nat, OWin 2%nat (Err 7)); (6%nat, OEmit (Err 7))]
+  /\ routing (fst (run all_imm (x_group_by_until (B:=unit) key (fun x => Ok (10 * x)) (fun _ => Ok true)) ins))
+     = gbu_spec (B:=unit) key (fun x => Ok (10 * x)) (fun _ => Ok true) ins.
+Proof.
+  cbn zeta. split; [|split; vm_compute; reflexivity].
+  intros p Hp. repeat (destruct Hp as [<-|Hp]; [reflexivity|]). destruct Hp.
+Qed.
+Example C19_witness_gbu_trace_state :
+  (* after 1, 2, duration of group 0, 3: the trace shows groups 1 (key 0) and 2 (key 1) live, three groups
+     handed, outer open; key 1 has the live group 2, key 5 has none *)
+  let tr := routing (fst (run all_imm (x_group_by_until (B:=unit) (fun x => Ok (x mod 2)) (fun x => Ok x) (fun _ => Ok true))
+                       [(0, ISrc 0%nat (Next 1)); (1, ISrc 0%nat (Next 2)); (2, ISrc 1%nat (Next 50)); (3, ISrc 0%nat (Next 3))])) in
+  trace_live tr = [(0, 1%nat); (1, 2%nat)] /\ outer_open tr = true /\ length (hands tr) = 3%nat
+  /\ gbu_find 1 (trace_live tr) = Some 2%nat /\ gbu_find 5 (trace_live tr) = None
+  /\ gbu_is_live 1 (trace_live tr) = true /\ gbu_is_live 0 (trace_live tr) = false.
+Proof. vm_compute. repeat split; reflexivity. Qed.
+
+(* ---- partition with ANY number of simultaneous subscriptions of the same output: WHOLE RUNS ------------
+   total predicate; EVERY input sequence (subscriptions / disposals of either output in any number at any time,
+   source notifications conforming or not): output g shows exactly the trace of the counting specification
+   pv_view (Ops/PartitionMultiFacts.v) -- an element of g's side is delivered once per subscription of g live
+   when it is emitted (each subscription gets its own copy, from ITS subscription point on: the published
+   source is hot, nothing is replayed), elements of the other side never, the terminal once per live
+   subscription, a subscription after the terminal gets it at once, nothing is delivered (and what the source
+   emits is lost) while nobody is subscribed *)
+Theorem C19_partition_refines_counting_spec : forall A (pf : A -> bool) g (ins : list (Z * inp A)),
+  wevents g (pt_run (fun x => Ok (pf x)) ins) = pv_view pf g ins.
+Proof. exact @partition_refines_counting_spec. Qed.
+Print Assumptions C19_partition_refines_counting_spec.
+(* n live subscriptions of output g while a conforming source runs: every element of g's side and the terminal
+   are delivered n times, one copy per subscription (n = 1: C19_partition_from_connected; n = 0: ..._silent) *)
+Theorem C19_partition_from_connected_n : forall A (pf : A -> bool) subs g k (xs : list A) tm,
+  wevents g (pt_run_from (fun x => Ok (pf x)) (PtSt subs true None) k (src_events xs tm))
+  = flat_map (fun x => repeat (Next x) (count_of g subs)) (filter (fun x => goes_to (pf x) g) xs)
+    ++ flat_map (fun e => repeat e (count_of g subs)) (term_ev tm).
+Proof. exact @partition_from_connected_n. Qed.
+Print Assumptions C19_partition_from_connected_n.
+(* two subscriptions of the SAME output, the second made after the prefix xs1: the output shows g's side of
+   xs1 once (first subscription only), g's side of xs2 twice and the terminal twice -- the first subscription
+   gets g's side of xs1 ++ xs2, the second g's side of xs2 only *)
+Theorem C19_partition_same_output_twice : forall A (pf : A -> bool) g (xs1 xs2 : list A) tm,
+  wevents g (pt_run (fun x => Ok (pf x)) ((0, ISubWin g) :: src_events xs1 TNever ++ (0, ISubWin g) :: src_events xs2 tm))
+  = map Next (filter (fun x => goes_to (pf x) g) xs1)
+    ++ flat_map (fun x => [Next x; Next x]) (filter (fun x => goes_to (pf x) g) xs2)
+    ++ flat_map (fun e => [e; e]) (term_ev tm).
+Proof. exact @partition_same_output_twice. Qed.
+Print Assumptions C19_partition_same_output_twice.
+Example C19_witness_partition_multi :
+  (* output 0 subscribed, 3 8; output 0 subscribed again, 9 4; one subscription of 0 disposed, 1; output 1
+     subscribed, 7 2, done; output 0 subscribed after the end *)
+  let ins := [(0, ISubWin 0%nat); (1, ISrc 0%nat (Next 3)); (2, ISrc 0%nat (Next 8)); (3, ISubWin 0%nat);
+              (4, ISrc 0%nat (Next 9)); (5, ISrc 0%nat (Next 4)); (6, IUnsubWin 0%nat); (7, ISrc 0%nat (Next 1));
+              (8, ISubWin 1%nat); (9, ISrc 0%nat (Next 7)); (10, ISrc 0%nat (Next 2)); (11, ISrc 0%nat Done);
+              (12, ISubWin 0%nat)] in
+  pv_view (fun x => x <? 5) 0 ins = [Next 3; Next 4; Next 4; Next 1; Next 2; Done; Done]
+  /\ pv_view (fun x => x <? 5) 1 ins = [Next 7; Done]
+  /\ wevents 0 (pt_run (fun x => Ok (x <? 5)) ins) = pv_view (fun x => x <? 5) 0 ins.
+Proof. vm_compute. repeat split; reflexivity. Qed.
